@@ -49,6 +49,27 @@ type c08Schema struct {
 
 func c08MakeSchema(r *core.Rand, i int) *c08Schema {
 	items := tsys.Schema(r, &tsys.GenOpts{Extensions: i%3 == 0, Small: i%4 == 0})
+	if i%6 == 4 {
+		// the schema brings its own definition of one of the directives executable documents use (@skip, @include, @defer)
+		// with another signature: an optional argument more, a default on the required one, a location more - the user's
+		// definition is the one documents are judged by
+		b := func(nonNull bool) *model.Type { return &model.Type{Name: "Boolean", NonNull: nonNull} }
+		tr := &model.Value{Kind: model.VBool, Raw: "true"}
+		var it *model.Item
+		switch r.Intn(3) {
+		case 0:
+			it = &model.Item{Kind: "directive", Name: "skip", Locations: []string{"FIELD", "FRAGMENT_SPREAD", "INLINE_FRAGMENT", "QUERY", "FRAGMENT_DEFINITION"},
+				Args: []*model.ArgDef{{Name: "if", Type: b(true)}, {Name: "unless", Type: b(false)}}}
+		case 1:
+			it = &model.Item{Kind: "directive", Name: "include", Locations: []string{"FIELD", "FRAGMENT_SPREAD", "INLINE_FRAGMENT", "VARIABLE_DEFINITION"},
+				Args: []*model.ArgDef{{Name: "if", Type: b(true), Default: tr}, {Name: "why", Type: &model.Type{Name: "String"}}}}
+		default:
+			it = &model.Item{Kind: "directive", Name: "defer", Locations: []string{"FRAGMENT_SPREAD", "INLINE_FRAGMENT", "FIELD"},
+				Args: []*model.ArgDef{{Name: "if", Type: b(false)}, {Name: "label", Type: &model.Type{Name: "String"}}, {Name: "priority", Type: &model.Type{Name: "Int"}}}}
+		}
+		at := r.Intn(len(items) + 1)
+		items = append(append(append([]*model.Item{}, items[:at]...), it), items[at:]...)
+	}
 	return &c08Schema{src: (&model.Renderer{}).RenderSDoc(&model.SDoc{Items: items}), items: items, mg: tsys.Merge(items)}
 }
 
